@@ -42,6 +42,10 @@ type caseSpec struct {
 	Progs [][]string // per core, instructions as assembler lines
 	Rules []string   // simbox rules driving the run the way `bondmachine -sim` does (i0 -> p0i0, p0o0 -> o0)
 	Sps   string     // "<number type>~<input>": the case is one SinglePipelineSimulate call showing o0 in that type
+	Dly   string     // "op:d,op:d": the delay table of this simulation (single-valued distributions)
+	Prev  string     // like Dly: when the case runs after other simulations (batch), its *simbox.SimDelays object
+	// was first used, for a simulation of the same machine, with this table and then UPDATED IN PLACE to Dly
+	// (simbox.MergeSimDelays / direct map update, what cmd/simfinetune does between fitness evaluations)
 }
 
 func (c caseSpec) String() string {
@@ -67,6 +71,12 @@ func (c caseSpec) String() string {
 	}
 	if c.Sps != "" {
 		extra += " sps=" + c.Sps
+	}
+	if c.Dly != "" {
+		extra += " dly=" + c.Dly
+	}
+	if c.Prev != "" {
+		extra += " prev=" + c.Prev
 	}
 	return fmt.Sprintf("id=%d P=%d rsize=%d ticks=%d ring=%d delays=%d%s progs=%s", c.ID, c.P, c.Rsize, c.Ticks, ring, delays, extra, strings.Join(ps, "/"))
 }
@@ -95,6 +105,10 @@ func parseCase(s string) (caseSpec, error) {
 			c.Rules = strings.Split(kv[1], ";")
 		case "sps":
 			c.Sps = kv[1]
+		case "dly":
+			c.Dly = kv[1]
+		case "prev":
+			c.Prev = kv[1]
 		case "progs":
 			for _, p := range strings.Split(kv[1], "/") {
 				var prog []string
@@ -219,7 +233,52 @@ func (c caseSpec) build() (*bondmachine.Bondmachine, error) {
 }
 
 // simulate runs the case on a fresh VM and returns one digest per tick
-func simulate(bm *bondmachine.Bondmachine, c caseSpec) (trace []string, err error) {
+// delayTable builds a fresh *simbox.SimDelays from "op:d,op:d" (each distribution = one value, p = 1)
+func delayTable(spec string) *simbox.SimDelays {
+	sd := simbox.NewSimDelays()
+	for _, e := range strings.Split(spec, ",") {
+		var d int
+		f := strings.SplitN(e, ":", 2)
+		if len(f) == 2 {
+			fmt.Sscanf(f[1], "%d", &d)
+			sd.OpcodeDelays[f[0]] = simbox.DelayDistribution{int32(d): 1.0}
+		}
+	}
+	return sd
+}
+
+// simulate runs the case.  history = the case runs after other simulations of the process: a case with
+// a `prev` table first simulates the same machine with ONE SimDelays object holding `prev`, updates that
+// object in place to `dly`, and only then runs the simulation whose trace is reported.
+func simulate(bm *bondmachine.Bondmachine, c caseSpec, history bool) (trace []string, err error) {
+	var sd *simbox.SimDelays
+	if c.Dly != "" {
+		// the table in force = prev overridden by dly; run alone it is built on a fresh object that no
+		// simulation has seen before
+		sd = delayTable(c.Dly)
+		if !history && c.Prev != "" {
+			sd = simbox.MergeSimDelays(delayTable(c.Prev), delayTable(c.Dly))
+		}
+		if history && c.Prev != "" {
+			sd = delayTable(c.Prev)
+			if _, e := simulateWith(bm, c, sd); e != nil {
+				return nil, e
+			}
+			if c.ID%2 == 0 {
+				sd = simbox.MergeSimDelays(sd, delayTable(c.Dly)) // returns its first argument, updated in place
+			} else {
+				for op, distr := range delayTable(c.Dly).OpcodeDelays {
+					sd.OpcodeDelays[op] = distr
+				}
+			}
+		}
+	} else if c.Delay {
+		sd = sharedDelays
+	}
+	return simulateWith(bm, c, sd)
+}
+
+func simulateWith(bm *bondmachine.Bondmachine, c caseSpec, sd *simbox.SimDelays) (trace []string, err error) {
 	defer func() {
 		if r := recover(); r != nil {
 			err = fmt.Errorf("panic:%v", r)
@@ -227,10 +286,6 @@ func simulate(bm *bondmachine.Bondmachine, c caseSpec) (trace []string, err erro
 	}()
 	if c.Sps != "" {
 		f := strings.SplitN(c.Sps, "~", 2)
-		var sd *simbox.SimDelays
-		if c.Delay {
-			sd = sharedDelays
-		}
 		res, e := bm.SinglePipelineSimulate(f[0], []string{f[1]}, sd)
 		if e != nil {
 			return nil, e
@@ -239,9 +294,7 @@ func simulate(bm *bondmachine.Bondmachine, c caseSpec) (trace []string, err erro
 	}
 	vm := new(bondmachine.VM)
 	vm.Bmach = bm
-	if c.Delay {
-		vm.SimDelayMap = sharedDelays
-	}
+	vm.SimDelayMap = sd
 	if e := vm.Init(); e != nil {
 		return nil, e
 	}
@@ -433,6 +486,34 @@ func genCases(tier string) []caseSpec {
 		}
 		cs = append(cs, c)
 	}
+	// one SimDelays object updated in place between two simulations of the same loaded machine: the second
+	// simulation must follow the updated table (= its run-alone trace with a fresh object)
+	dlyProg := []string{"rset r0 1", "inc r0", "add r0 r0", "nop", "inc r0", "r2o r0 o0", "j 1"}
+	cs = append(cs, caseSpec{ID: did + 1, P: 1, Rsize: 8, Ticks: 24, Dly: "inc:5,add:1", Prev: "inc:2,add:3", Progs: [][]string{dlyProg}})
+	cs = append(cs, caseSpec{ID: did + 2, P: 1, Rsize: 8, Ticks: 24, Dly: "inc:1,nop:4", Prev: "inc:3", Progs: [][]string{dlyProg}})
+	for q := 0; q < 3; q++ {
+		ops := []string{"inc", "add", "nop", "rset", "r2o"}
+		mk := func() string {
+			var es []string
+			for _, o := range ops {
+				if rng.Chance(2, 3) {
+					es = append(es, fmt.Sprintf("%s:%d", o, 1+rng.Intn(5)))
+				}
+			}
+			if len(es) == 0 {
+				es = []string{fmt.Sprintf("inc:%d", 2+rng.Intn(4))}
+			}
+			return strings.Join(es, ",")
+		}
+		c := caseSpec{ID: did + 3 + q, P: 1 + rng.Intn(3), Rsize: []int{8, 16}[rng.Intn(2)], Ticks: 30 + rng.Intn(30), Dly: mk(), Prev: mk()}
+		for c.Prev == c.Dly {
+			c.Prev = mk()
+		}
+		for p := 0; p < c.P; p++ {
+			c.Progs = append(c.Progs, genProg(rng, false, false))
+		}
+		cs = append(cs, c)
+	}
 	// simbox-driven cases: several periodic set rules (different periods, different values) on the same
 	// input, with and without an absolute set on a common multiple: the trace must not depend on the run
 	ioProg := []string{"rset r0 1", "i2r r2 i0", "r2o r2 o0", "add r0 r2", "j 1"}
@@ -520,7 +601,7 @@ func runAlone(spec string) {
 		return
 	}
 	registries(0)
-	tr, err := simulate(bm, c)
+	tr, err := simulate(bm, c, false)
 	emit(c, "alone", 1, tr, err)
 	registries(c.ID)
 }
@@ -543,7 +624,7 @@ func runBatch(path string) {
 			continue
 		}
 		// (1) alone, but after every earlier simulation of this process
-		tr, err := simulate(bms[i], c)
+		tr, err := simulate(bms[i], c, true)
 		emit(c, "seq", 1, tr, err)
 		// (2) concurrently with k-1 other simulations: copies of itself and other machines
 		k := 2 + rng.Intn(7)
@@ -575,7 +656,7 @@ func runBatch(path string) {
 				wg.Add(1)
 				go func(w, j int) {
 					defer wg.Done()
-					t, e := simulate(bms[j], cs[j])
+					t, e := simulate(bms[j], cs[j], true)
 					rs[w] = res{t, e}
 				}(w, j)
 			}
